@@ -169,8 +169,12 @@ fn cases_for(model: &Model, rule: &str, cfg: &PropCfg, rng: &mut Rng) -> Vec<Cas
                     _ => a.any_token(rng),
                 }
             };
-            let pre = pick(rng);
+            let mut pre = pick(rng);
             let mut post = pick(rng);
+            if rng.chance(1, 4) {
+                // the same text twice in one string object: windows with equal text at different offsets
+                pre = s.clone();
+            }
             if rng.chance(1, 3) {
                 // continue the input itself: whatever could have matched next is right behind the end
                 post = s.chars().rev().take(2).collect::<Vec<_>>().into_iter().rev().collect::<String>() + &post;
